@@ -459,8 +459,14 @@ func writeEvidence(prop, tier string, seed uint64, plan propPlan, a *agg, wall f
 		"violations":  nviol,
 	}
 	data, _ := json.MarshalIndent(ev, "", " ")
-	os.MkdirAll(filepath.Join(verifDir, "evidence"), 0o755)
-	if err := os.WriteFile(filepath.Join(verifDir, "evidence", prop+".json"), append(data, '\n'), 0o644); err != nil {
+	// evidence/ describes runs against /repo only; a run against another tree (VERIF_REPO: sensitivity
+	// experiments) leaves its record beside it
+	dir := "evidence"
+	if r := os.Getenv("VERIF_REPO"); r != "" && r != "/repo" {
+		dir = "evidence-scratch"
+	}
+	os.MkdirAll(filepath.Join(verifDir, dir), 0o755)
+	if err := os.WriteFile(filepath.Join(verifDir, dir, prop+".json"), append(data, '\n'), 0o644); err != nil {
 		fatal("writing evidence: %v", err)
 	}
 }
